@@ -50,7 +50,9 @@ Named(sel) ==
 \* rule kinds
 RuleKinds == {"none", "get", "post-body-star", "post-body-field", "with-additional", "bad-syntax", "nested-additional",
               "body-missing-field", "respbody-missing-field", "respbody-field", "var-missing-field", "var-repeated-field",
-              "var-nested", "additional-same-as-primary", "blank-path", "custom-any-then-get", "get-then-custom-any"}
+              "var-nested", "additional-same-as-primary", "blank-path", "custom-any-then-get", "get-then-custom-any",
+              \* "**" inside a variable, with more segments after the variable: "**" must end the whole template
+              "var-dblstar-not-last", "var-dblstar-prefix-not-last"}
 \* (a custom pattern of kind "*" binds every HTTP method; a binding for one method on the same path is a
 \*  different binding, in either order)
 RuleValid(kind) == kind \in {"get", "post-body-star", "post-body-field", "with-additional", "respbody-field", "var-nested",
